@@ -95,7 +95,7 @@ func ruleEntry(c *Ctx, a *udpAnchors) {
 		}
 		okID := false
 		if idArg != nil {
-			okID, _ = p.AllFrom(idArg, deepF, func(v ssa.Value) bool {
+			okID, _ = p.AllFrom(idArg, deepAt(ad), func(v ssa.Value) bool {
 				// the ID of the list element that decrypted this datagram, or the id result of a search call
 				if _, fl, _, ok := eng.FieldLoad(v); ok && fl == "ID" {
 					return true
